@@ -222,7 +222,10 @@ namespace
 	{
 		if (pos + sizeof(T) <= inputData.size())
 		{
-			outValue = Memory::BigEndianToNative(*reinterpret_cast<const T*>(inputData.data() + pos));
+			// The field may start at any offset: copy it out instead of dereferencing a misaligned pointer
+			T rawValue;
+			std::memcpy(&rawValue, inputData.data() + pos, sizeof(T));
+			outValue = Memory::BigEndianToNative(rawValue);
 			pos += sizeof(T);
 		}
 		else {
@@ -837,7 +840,10 @@ namespace
 	{
 		if (const auto data = binaryStreamReader.ReadSolidBlock(sizeof(T)); !data.empty())
 		{
-			outValue = Memory::BigEndianToNative(*reinterpret_cast<const T*>(data.data()));
+			// The block may start at any offset of the window: copy it out instead of dereferencing a misaligned pointer
+			T rawValue;
+			std::memcpy(&rawValue, data.data(), sizeof(T));
+			outValue = Memory::BigEndianToNative(rawValue);
 		}
 		else {
 			throw ParsingException("Unexpected end of input archive", 0, binaryStreamReader.GetPosition());
